@@ -42,6 +42,7 @@ def main():
             sdir = os.path.join(root, name)
             meta = json.load(open(os.path.join(sdir, 'meta.json'), encoding='utf-8'))
             props = args.props.split(',') if args.props else (
+                meta['caught_by'] if 'caught_by' in meta else
                 [meta['property']] if 'property' in meta else
                 [f'C{i:02d}' for i in range(1, 21)])
             scratch = tempfile.mkdtemp(prefix='dznpy-verif-seed-')
